@@ -21,7 +21,7 @@ Proof.
   { intros lo hi H. unfold wf_mesh, wf_region; simpl. repeat split; try lia.
     - constructor; [simpl; tauto | constructor].
     - constructor; [exact H | constructor].
-    - unfold default_tf. lra.
+    - unfold default_tf, Constants_gen.region_tf_default. lra.
     - constructor; [lia | constructor]. }
   split; [apply W; reflexivity|]. split; [apply W; reflexivity|].
   split; [vm_compute; reflexivity|]. split; vm_compute; reflexivity.
@@ -36,7 +36,7 @@ Proof.
   - unfold wf_mesh, wf_region; simpl. repeat split; try lia.
     + constructor; [simpl; tauto | constructor].
     + constructor; [reflexivity | constructor].
-    + unfold default_tf. lra.
+    + unfold default_tf, Constants_gen.region_tf_default. lra.
     + constructor; [lia | constructor].
   - split; vm_compute; reflexivity.
 Qed.
